@@ -421,6 +421,7 @@ pub fn initial() -> Vec<Vec<u8>> {
             }
             p
         })
+        .chain(std::iter::once(aligned_pointer_packets()[5].clone()))
         .collect()
 }
 
@@ -591,6 +592,8 @@ fn run(ctx: &mut Ctx, rep: &mut Report) {
                         if rep.samples.len() < MAX_SAMPLES && rep.evaluations % 5003 == 0 {
                             rep.sample(|| json!({"initial": hex(init), "steps": steps_json(&script), "class": c}));
                         }
+                        // the long aligned packet (last initial) is explored to depth 2 in the quick tier
+                        let depth = if ctx.tier == Tier::Quick && ii + 1 == inits.len() { 2 } else { depth };
                         if script.len() < depth && !c.starts_with("native_panic") {
                             // successor alphabet from the state the native run reaches
                             let mut pp = crate::subj::parse(init).unwrap();
